@@ -130,6 +130,16 @@ func (r *unpackReconciler) Reconcile(
 		return res, fmt.Errorf("getting environment: %w", err)
 	}
 
+	if len(pkg.GetUnpackedHash()) > 0 {
+		// Forget the previously unpacked spec before deploying another one.
+		// Recording the new hash further down can fail after the deployment was already updated;
+		// a spec that then goes back to the old value must not be mistaken for already unpacked.
+		pkg.SetUnpackedHash("")
+		if err := r.uncachedClient.Status().Update(ctx, pkg.ClientObject()); err != nil {
+			return res, fmt.Errorf("resetting unpacked hash: %w", err)
+		}
+	}
+
 	if err := r.packageDeployer.Deploy(ctx, pkg, rawPkg, *env); err != nil {
 		return res, fmt.Errorf("deploying package: %w", err)
 	}
